@@ -5,7 +5,7 @@
 # (/tmp/mutbox/repo), so that seeded changes can be run against the checks without ever
 # patching /repo itself. Nothing registered in MANIFEST.json depends on it.
 set -u
-BOX=/tmp/mutbox
+BOX=${MUTBOX:-/tmp/mutbox}
 case "${1:-}" in
   setup)
     rm -rf "$BOX/verif"; mkdir -p "$BOX"
